@@ -15,12 +15,17 @@ LEVEL_TEXT = ("Theorems over the reals about _decode_pyramid / contact_force_fn 
               "and valid rows the kernel writes exactly the spec of mj_contactForce. The real contact_force is compared with mujoco.mj_contactForce and with a NumPy transcription of "
               "mju_decodePyramid / the elliptic row copy on random scenes in rotation over both cones x condim 1/3/4/6 (uniform and mixed per geom) x row capacity njmax "
               "{generous default, EXACT fit njmax = nefc (last contact's last row is row njmax-1), ONE SHORT njmax = nefc-1 (last row dropped, reported overflow)}, the tight capacities with two worlds "
-              "(different velocities) so that a read past a world's rows lands in the neighbour's rows; plus a sweep that places the capacity boundary at and one below the end of individual contacts.")
+              "(different velocities) so that a read past a world's rows lands in the neighbour's rows; plus a sweep that places the capacity boundary at and one below the end of individual contacts. "
+              "Requests: on batches (two worlds at exact capacity; three worlds in DIFFERENT states - own heights and velocities, hence different contact sets, row counts and forces - at default capacity) "
+              "contact_force is called with ARBITRARY contact_ids arrays (reversed, permuted, with repetitions and longer than nacon, sorted subset, the contacts of one world only, a cross-world list in which "
+              "every slot asks for a contact of another world than the contact numbered like the slot, lists mixed with ids >= nacon) into a sentinel-filled output, both frames; every slot must hold "
+              "mj_contactForce of the REQUESTED contact in ITS world (and the transcription on that world's rows).")
 LEVEL_NOTE = ("Deviations documented by witnesses (C39Witness): ids >= nacon leave the output stale rather than zero; the elliptic branch lacks an `address >= 0` test (reachable only after a reported "
               "nefc overflow; the oracle's one-short mode therefore compares only the components whose row exists in the elliptic cone and counts the skipped ones); adhesion is subtracted from the "
               "normal force (scenes have zero adhesion). Trusted: Lean kernel + Mathlib, translator; the spec is a transcription of MuJoCo's documented routine.")
 ASSUMPTIONS = ["oracle mujoco.mj_contactForce on the MjData returned by get_data_into after the same forward() (generous and exact capacities)",
-               "oracle NumPy transcription of mju_decodePyramid / elliptic row copy on d.efc.force with dropped rows (index >= njmax) contributing zero force (all capacities)"]
+               "oracle NumPy transcription of mju_decodePyramid / elliptic row copy on d.efc.force with dropped rows (index >= njmax) contributing zero force (all capacities)",
+               "get_data_into exports the contacts of world w in the order of their global ids (contact k of the batch is contact rank(k) of its world's MjData); the transcription oracle does not depend on it"]
 
 _CONES = ("pyramidal", "elliptic")
 # two free bodies far away from everything, one geom of every type used: they never touch anything but make the set of geom-type pairs
@@ -122,6 +127,7 @@ def _run(ctx, ncases, rec, stop_after=None):
     for w in range(s.nworld):
       sel = np.nonzero(s.wid == w)[0]
       rank[sel] = np.arange(len(sel))
+    s.refs, s.rank = refs, rank
     for to_world in (False, True):
       got = forces(m, dv, np.arange(s.n), to_world)
       for k in range(s.n):
@@ -170,6 +176,95 @@ def _run(ctx, ncases, rec, stop_after=None):
           acc.hit(f"{tag}:vs-mujoco")
     return s
 
+  _SENT = 7777.0  # output prefill: a slot that holds it afterwards was not written
+
+  def requests(tag, cone, xml, mjm, m, d, s, mode, state):
+    """contact_force with ARBITRARY contact_ids arrays on a multi-world Data: slot t of the output must hold the wrench of contact ids[t]
+    (decoded from the rows of the world THAT contact lives in), whatever the position t, the order, the multiplicity or the selection.
+    Reference per contact: transcription on d.efc.force[contact.worldid[id]] and mj_contactForce on the exported world (s.refs of compare)."""
+    n = s.n
+    if s.nworld < 2 or n < 2:
+      acc.hit(f"{tag}:requests-need-two-worlds-and-two-contacts-skip")
+      return
+    tab = {}
+    for k in range(n):
+      if s.adh[k] != 0.0:
+        continue
+      dm, nd, w = int(s.dim[k]), s.ndim(cone, k), int(s.wid[k])
+      r = s.rows(cone, k, s.njmax)
+      if r is None:
+        p, ok, scale, idx = np.zeros(nd), np.ones(nd, dtype=bool), 0.0, None
+      else:
+        p, ok, scale = r
+        idx = int(s.adr[k, 0]) + np.arange(nd)
+      if not ok.all():
+        continue  # dropped rows are the business of the capacity stages
+      loc = _decode_ref(cone, p, dm, s.mu[k])
+      fm = None
+      ref = s.refs.get(w)
+      if ref is not None:
+        f = np.zeros(6)
+        mujoco.mj_contactForce(mjm, ref, int(s.rank[k]), f)
+        fm = (f, _rotate(ref.contact.frame[int(s.rank[k])], f))
+      # what the SAME row numbers of the other worlds decode to: if all of them equal loc, no request can tell the worlds apart (vacuity measure)
+      alt = [_decode_ref(cone, s.force[w2, idx], dm, s.mu[k]) for w2 in range(s.nworld) if w2 != w] if idx is not None else []
+      distinct = any(np.abs(a - loc).max() > 10 * tol(scale) for a in alt)
+      tab[k] = (loc, _rotate(s.frame[k], loc), scale, fm, distinct)
+    if len(tab) < 2:
+      acc.hit(f"{tag}:requests-too-few-comparable-contacts-skip")
+      return
+    allk = np.arange(n)
+    # cross-world: slot t asks for a contact of a world other than the world of contact number t (where one exists)
+    cross = allk.copy()
+    for t in range(n):
+      other = np.nonzero(s.wid != s.wid[t])[0]
+      if len(other):
+        cross[t] = int(other[(t * 7 + 3) % len(other)])
+    counts = np.bincount(s.wid, minlength=s.nworld)
+    wsel = 1 + int(np.argmax(counts[1:]))  # the world other than world 0 with most contacts
+    sub = np.sort(rng.choice(n, size=max(1, n // 2), replace=False))
+    lists = {"reversed": allk[::-1].copy(), "permuted": rng.permutation(n), "repeated": rng.integers(0, n, size=n + 3), "subset": sub,
+             "one-world": np.nonzero(s.wid == wsel)[0], "cross-world": cross,
+             "with-out-of-range-ids": np.concatenate([[n, int(rng.integers(0, n)), int(d.naconmax) + 5], rng.permutation(n)[: max(1, n // 2)], [n + 1]])}
+    for name, ids in lists.items():
+      ids = np.asarray(ids, dtype=int)
+      if len(ids) == 0:
+        acc.hit(f"requests:{name}-empty-skip")
+        continue
+      for to_world in (False, True):
+        out = wp.array(np.full((len(ids), 6), _SENT, dtype=np.float32), dtype=wp.spatial_vector)
+        mjw.contact_force(m, d, wp.array(ids.astype(np.int32), dtype=int), to_world, out)
+        got = out.numpy().astype(np.float64)
+        for t, k in enumerate(ids):
+          k = int(k)
+          if k >= n:
+            # documented witness (C39Witness): ids >= nacon are not written (MuJoCo has no such request); observed, not judged
+            acc.hit("requests:id>=nacon-slot-" + ("left-untouched" if np.all(got[t] == _SENT) else "written"))
+            continue
+          if k not in tab:
+            continue
+          loc, wor, scale, fm, distinct = tab[k]
+          if t >= n or s.wid[t] != s.wid[k]:
+            acc.hit("requests:slot-asks-for-contact-of-another-world-than-contact#slot")
+          if distinct:
+            acc.hit("requests:other-worlds-hold-different-forces-in-the-same-rows")
+          want = wor if to_world else loc
+          t1 = tol(scale)
+          rep = dict(xml=xml, njmax=s.njmax, nworld=s.nworld, contact_ids=ids.tolist(), slot=int(t), contact=k, world=int(s.wid[k]), world_of_contact_at_slot=int(s.wid[t]) if t < n else None,
+                     contact_worldid=s.wid.tolist(), to_world=bool(to_world), data=tag, got=got[t].tolist())
+          if not np.all(np.abs(got[t] - want) <= t1):
+            acc.find(f"contact_force with an arbitrary contact_ids array ({name}) differs from the transcription of mju_decodePyramid/row copy on the rows of the requested contact's own world "
+                     f"(cone={cone}, condim={int(s.dim[k])}, to_world={to_world}, nworld={s.nworld}, data={tag})", "support.contact_force", "request-vs-transcription", want=want.tolist(), tol=t1, **rep, **state)
+          if fm is not None:
+            f = fm[1] if to_world else fm[0]
+            t2 = tol(max(scale, float(np.abs(f).max())))
+            if not np.all(np.abs(got[t] - f) <= t2):
+              acc.find(f"contact_force with an arbitrary contact_ids array ({name}) differs from mj_contactForce of the requested contact in its own world "
+                       f"(cone={cone}, condim={int(s.dim[k])}, to_world={to_world}, nworld={s.nworld}, data={tag})", "support.contact_force", "request-vs-mujoco", want=f.tolist(), tol=t2, **rep, **state)
+            acc.hit("requests:vs-mujoco")
+        acc.hit(f"requests:{name}")
+    acc.hit(f"requests:{tag}-{cone}")
+
   def scenario():
     for c in range(ncases):
       if stop_after is not None and len(acc.findings) >= stop_after:
@@ -193,6 +288,8 @@ def _run(ctx, ncases, rec, stop_after=None):
           mjd.qpos[mjm.jnt_qposadr[j] + 2] = rng.uniform(0.02, 0.12)
         mjd.qvel[:] = rng.normal(size=mjm.nv)
         qvel1 = rng.normal(size=mjm.nv)  # second world of the tight-capacity runs
+        qvel2 = 2.0 * rng.normal(size=mjm.nv)  # worlds 1, 2 of the three-world batch: own heights and velocities
+        dz = [rng.uniform(0.02, 0.12, size=max(1, mjm.njnt - 2)) for _ in range(2)]
         mujoco.mj_forward(mjm, mjd)
         m = mjw.put_model(mjm)
         d = mjw.put_data(mjm, mjd, nworld=1)
@@ -241,8 +338,35 @@ def _run(ctx, ncases, rec, stop_after=None):
         if int(d2.nacon.numpy()[0]) != 2 * n or any(int(x) != nefc for x in nefc2):
           acc.hit(f"{mode}:row-count-differs-from-generous-run-skip")
           continue
-        compare(mode, cone, condim, xml, mjm, m, d2, nj, mode, state, mode == "exact")
+        s2 = compare(mode, cone, condim, xml, mjm, m, d2, nj, mode, state, mode == "exact")
+        if mode == "exact":
+          requests("exact-2-worlds", cone, xml, mjm, m, d2, s2, mode, state)
         acc.hit(f"{mode}-{cone}-{'mixed' if mixed else condim}")
+
+      # 4. batch of three worlds in DIFFERENT states (heights and velocities differ: the worlds have different contact sets, row counts and forces), default capacity:
+      #    all contacts in allocation order against mj_contactForce per world, then arbitrary contact_ids arrays
+      mj0 = mujoco.MjData(mjm)
+      mj0.qpos[:] = mjd.qpos
+      mj0.qvel[:] = mjd.qvel
+      d3 = mjw.put_data(mjm, mj0, nworld=3)
+      qp, qv = d3.qpos.numpy(), d3.qvel.numpy()
+      for j in range(mjm.njnt - 2):
+        qp[1, mjm.jnt_qposadr[j] + 2] = dz[0][j]
+        qp[2, mjm.jnt_qposadr[j] + 2] = dz[1][j]
+      qv[1] = qvel1
+      qv[2] = qvel2
+      wp.copy(d3.qpos, wp.array(qp, dtype=float))
+      wp.copy(d3.qvel, wp.array(qv, dtype=float))
+      mjw.forward(m, d3)
+      n3 = int(d3.nacon.numpy()[0])
+      if n3 > d3.naconmax or any(int(x) > d3.njmax for x in d3.nefc.numpy()):
+        acc.hit("batch:capacity-overflow-skip")
+      else:
+        state3 = dict(state, qpos_z_worlds_1_2=[np.asarray(z).tolist() for z in dz], qvel2=qvel2.tolist())
+        s3 = compare("batch", cone, condim, xml, mjm, m, d3, int(d3.njmax), "generous-3-worlds", state3, True)
+        if s3.n:
+          acc.hit("batch:worlds-with-contacts=" + str(int((np.bincount(s3.wid, minlength=3) > 0).sum())))
+          requests("batch-3-worlds", cone, xml, mjm, m, d3, s3, "generous-3-worlds", state3)
       acc.hit(f"{cone}-{'mixed' if mixed else condim}")
       acc.sample({"cone": cone, "condim": "mixed" if mixed else condim, "ncon": n, "nefc": nefc})
 
@@ -258,7 +382,10 @@ RULE = ("1-3 free bodies (sphere/capsule/box; box-box pairs masked out by contyp
         "uniform / mixed per-geom condim); per scene contact_force of ALL contacts, contact and world frame, is compared (tolerance 1e-5 of the summed edge-force magnitude) with (a) mujoco.mj_contactForce "
         "on the exported MjData and (b) a NumPy transcription of mju_decodePyramid / elliptic row copy, for three really allocated row capacities: default (generous), njmax = nefc (EXACT fit: the contact "
         "allocated last ends at row njmax-1) and njmax = nefc-1 (ONE SHORT: its last row is dropped and must count as zero force; (b) only), the two tight ones with nworld = 2 and different velocities per "
-        "world; plus a boundary sweep passing njmax = end and end-1 of the last and two random contacts on the generous Data (rows >= njmax read as zero; (b) only); func-level differential of "
+        "world; a batch of three worlds with own heights (uniform 0.02..0.12 per body) and velocities at default capacity (all contacts vs (a) and (b)); on the exact two-world and the three-world Data "
+        "REQUESTS with arbitrary contact_ids (reversed / random permutation / n+3 random ids with repetitions / sorted random half / ids of the fullest world other than world 0 / cross-world: slot t asks for a "
+        "contact of a world != contact.worldid[t] / list mixed with ids nacon, nacon+1, naconmax+5) into an output prefilled with 7777, both frames, every in-range slot vs (a) and (b) of the requested contact "
+        "(hits count slots whose contact lives in another world than contact #slot, and slots for which the same rows of another world decode to a different wrench: the comparison can tell worlds apart); plus a boundary sweep passing njmax = end and end-1 of the last and two random contacts on the generous Data (rows >= njmax read as zero; (b) only); func-level differential of "
         "_decode_pyramid is covered by the kernel interception; distinct = scenes with contacts; hits count contacts ending exactly at the last row / with dropped rows / with a non-zero last edge force")
 
 
@@ -269,4 +396,4 @@ def correspondence(ctx):
 
 def search(ctx, breaks):
   acc, _ = _run(ctx, 48, False, stop_after=3)
-  return search_result(acc, "mujoco.mj_contactForce + transcription of mju_decodePyramid over row capacities {generous, exact, one short}")
+  return search_result(acc, "mujoco.mj_contactForce + transcription of mju_decodePyramid over row capacities {generous, exact, one short} and arbitrary contact_ids requests on two/three-world batches in different states")
